@@ -10,6 +10,7 @@
   Shape of every family theorem (all widths, all operands, all shared-arithmetic values):
      value : runT p core = .val r → runQ p core = .val r
      throws: runT p core = .thrown k ↔ err inputs ∧ k = kind inputs
+  (cfloat `+= -= *=`: the model follows the code after fix 896b71f, which repaired D22; the value clause is a full theorem.)
   Where the pinned code violates one of the two, the theorem carries the excluded operand class as a decidable hypothesis
   (`…_partial`) and the negation is proved at a concrete witness (`…_counterexample`).
 -/
@@ -98,14 +99,13 @@ example : PositSpec.err 16 .div 0x4000 0 = true ∧ PositSpec.kind 16 .div 0x400
 
 Configuration `c = (nbits, es, subnormals, supernormals)` with at least one fraction bit; encodings canonical. -/
 
-/-- value clause outside the operand class of D22 (`+ - *` with a quiet-NaN operand and no signalling one). -/
-theorem C19_cfloat_prologues_agree_partial (c : Cfg) (op : Op) (a b : Nat)
-    (hf : c.es + 2 ≤ c.n) (ha : a < 2 ^ c.n) (hb : b < 2 ^ c.n)
-    (hx : CFloatSpec.qnanOperandClass c op a b = false) :
+/-- prologue level (code after fix 896b71f: the quiet-NaN test of `+= -= *=` follows the `#endif`): no throw ⇒ the two
+    builds take the same early exit — in particular both return quiet NaN for a quiet-NaN operand. -/
+theorem C19_cfloat_prologues_agree (c : Cfg) (op : Op) (a b : Nat)
+    (hf : c.es + 2 ≤ c.n) (ha : a < 2 ^ c.n) (hb : b < 2 ^ c.n) :
     (CFloat.prologue c op a b).throws = none →
       (CFloat.prologue c op a b).qEarly = (CFloat.prologue c op a b).tEarly ∧ (CFloat.prologue c op a b).qTrap = false := by
   rw [cfloat_prologue_spec c op a b hf ha hb]
-  unfold CFloatSpec.qnanOperandClass at hx
   rw [cfloatSpec_nan_split c a, cfloatSpec_nan_split c b]
   generalize CFloatSpec.isSNaN c a = sa at *
   generalize CFloatSpec.isSNaN c b = sb at *
@@ -114,13 +114,14 @@ theorem C19_cfloat_prologues_agree_partial (c : Cfg) (op : Op) (a b : Nat)
   generalize CFloatSpec.isZero c a = za at *
   generalize CFloatSpec.isZero c b = zb at *
   cases op <;> simp only [] <;>
-    cases sa <;> cases sb <;> cases qa <;> cases qb <;> cases zb <;> simp at hx ⊢
+    cases sa <;> cases sb <;> cases qa <;> cases qb <;> cases zb <;> simp
 
-theorem C19_cfloat_value_partial (c : Cfg) (op : Op) (a b core r : Nat)
-    (hf : c.es + 2 ≤ c.n) (ha : a < 2 ^ c.n) (hb : b < 2 ^ c.n)
-    (hx : CFloatSpec.qnanOperandClass c op a b = false) :
+/-- value clause, every operator and operand pair (quiet-NaN operands included): whatever the shared arithmetic computes, a
+    value returned by the throwing build is the quiet build's value. -/
+theorem C19_cfloat_value (c : Cfg) (op : Op) (a b core r : Nat)
+    (hf : c.es + 2 ≤ c.n) (ha : a < 2 ^ c.n) (hb : b < 2 ^ c.n) :
     runT (CFloat.prologue c op a b) core = .val r → runQ (CFloat.prologue c op a b) core = .val r :=
-  run_value_agree _ (C19_cfloat_prologues_agree_partial c op a b hf ha hb hx) core r
+  run_value_agree _ (C19_cfloat_prologues_agree c op a b hf ha hb) core r
 
 /-- throw clause outside the class "quiet-NaN numerator over an ordinary divisor". -/
 theorem C19_cfloat_throws_partial (c : Cfg) (op : Op) (a b : Nat) (k : ExcKind)
@@ -141,32 +142,20 @@ theorem C19_cfloat_throws_partial (c : Cfg) (op : Op) (a b : Nat) (k : ExcKind)
     cases sa <;> cases sb <;> cases qa <;> cases qb <;> cases zb <;> simp at hx ⊢ <;> exact eq_comm
 
 theorem C19_cfloat (c : Cfg) (op : Op) (a b core : Nat) (hf : c.es + 2 ≤ c.n) (ha : a < 2 ^ c.n) (hb : b < 2 ^ c.n)
-    (hx1 : CFloatSpec.qnanOperandClass c op a b = false) (hx2 : CFloatSpec.divQNaNNumeratorClass c op a b = false) :
+    (hx2 : CFloatSpec.divQNaNNumeratorClass c op a b = false) :
     (∀ r, runT (CFloat.prologue c op a b) core = .val r → runQ (CFloat.prologue c op a b) core = .val r) ∧
     (∀ k, runT (CFloat.prologue c op a b) core = .thrown k ↔ (CFloatSpec.err c op a b = true ∧ k = CFloatSpec.kind c op a b)) :=
-  ⟨fun r => C19_cfloat_value_partial c op a b core r hf ha hb hx1,
+  ⟨fun r => C19_cfloat_value c op a b core r hf ha hb,
    fun k => (runT_thrown_iff _ core k).trans (C19_cfloat_throws_partial c op a b k hf ha hb hx2)⟩
 
-/-- cfloat: outside the two operand classes the spec predicate accepts the outcome pair of the two builds. -/
+/-- cfloat: outside the operand class "quiet-NaN numerator over an ordinary divisor" the spec predicate accepts the outcome pair of the two builds. -/
 theorem C19_cfloat_spec_accepts (c : Cfg) (op : Op) (a b core : Nat) (hf : c.es + 2 ≤ c.n) (ha : a < 2 ^ c.n) (hb : b < 2 ^ c.n)
-    (hx1 : CFloatSpec.qnanOperandClass c op a b = false) (hx2 : CFloatSpec.divQNaNNumeratorClass c op a b = false) :
+    (hx2 : CFloatSpec.divQNaNNumeratorClass c op a b = false) :
     specHolds (CFloatSpec.err c op a b) (CFloatSpec.kindApplies c op a b) false
       ((runQ (CFloat.prologue c op a b) core).obs toHex) ((runT (CFloat.prologue c op a b) core).obs toHex)
       (CFloat.prologue c op a b).qStderr = true :=
-  specHolds_of_model toHex _ core _ _ false (CFloatSpec.kind c op a b) (C19_cfloat_prologues_agree_partial c op a b hf ha hb hx1)
+  specHolds_of_model toHex _ core _ _ false (CFloatSpec.kind c op a b) (C19_cfloat_prologues_agree c op a b hf ha hb)
     (fun k => C19_cfloat_throws_partial c op a b k hf ha hb hx2) (cfloatSpec_kind_applies c op a b) (by simp)
-
-def C19_cfloat_value_full : Prop :=
-  ∀ (c : Cfg) (op : Op) (a b core r : Nat), c.es + 2 ≤ c.n → a < 2 ^ c.n → b < 2 ^ c.n →
-    runT (CFloat.prologue c op a b) core = .val r → runQ (CFloat.prologue c op a b) core = .val r
-
-/-- D22 — `cfloat<8,2,uint8_t,true,true,false>`: 1 + qNaN. The quiet build returns qNaN (0x7f) from its prologue; the
-    throwing build has no quiet-NaN test and returns whatever the shared arithmetic makes of the NaN encoding
-    (transcript: 0x01). -/
-theorem C19_cfloat_qnan_operand_counterexample : ¬ C19_cfloat_value_full := by
-  intro h
-  have := h ⟨8, 2, true, true⟩ .add 0x01 0x7f 0x01 0x01 (by decide) (by decide) (by decide) (by decide)
-  exact absurd this (by decide)
 
 def C19_cfloat_throws_full : Prop :=
   ∀ (c : Cfg) (op : Op) (a b : Nat) (k : ExcKind), c.es + 2 ≤ c.n → a < 2 ^ c.n → b < 2 ^ c.n →
@@ -179,9 +168,10 @@ theorem C19_cfloat_div_qnan_numerator_counterexample : ¬ C19_cfloat_throws_full
   have := (h ⟨8, 2, true, true⟩ .div 0x7f 0x01 .cfloat_operand_is_nan (by decide) (by decide) (by decide)).1 (by decide)
   exact absurd this.1 (by decide)
 
--- non-vacuity: half precision, sNaN + 1.0 throws; 1.0 / -0 throws divide_by_zero; an ordinary pair falls through
-example : CFloatSpec.qnanOperandClass ⟨16, 5, true, false⟩ .add 0xffff 0x3c00 = false ∧
-    runT (CFloat.prologue ⟨16, 5, true, false⟩ .add 0xffff 0x3c00) 0 = .thrown .cfloat_operand_is_nan := by decide
+-- non-vacuity: half precision, 1.0 + qNaN is qNaN in both builds (the D22 operands); sNaN + 1.0 throws; 1.0 / -0 throws divide_by_zero; an ordinary pair falls through
+example : runT (CFloat.prologue ⟨16, 5, true, false⟩ .add 0x3c00 0x7fff) 0x3c00 = .val 0x7fff ∧
+    runQ (CFloat.prologue ⟨16, 5, true, false⟩ .add 0x3c00 0x7fff) 0x3c00 = .val 0x7fff := by decide
+example : runT (CFloat.prologue ⟨16, 5, true, false⟩ .add 0xffff 0x3c00) 0 = .thrown .cfloat_operand_is_nan := by decide
 example : runT (CFloat.prologue ⟨16, 5, true, false⟩ .div 0x3c00 0x8000) 0 = .thrown .cfloat_divide_by_zero ∧
     runQ (CFloat.prologue ⟨16, 5, true, false⟩ .div 0x3c00 0x8000) 0 = .val 0xfffe := by decide
 example : runT (CFloat.prologue ⟨16, 5, true, false⟩ .mul 0x3c00 0x4000) 0x4000 = .val 0x4000 ∧
